@@ -15,20 +15,6 @@ open Nomt Nomt.Ovl Nomt.TriePos Nomt.Seek
 
 variable {Node VH V Vb : Type} [DecidableEq Node] [DecidableEq VH]
 
-theorem wsLookup_eq_kvGet {A : Type} (ws : List (Key × Option A)) (k : Key) : wsLookup ws k = kvGet ws k := by
-  induction ws with
-  | nil => rfl
-  | cons x xs ih => obtain ⟨k', w⟩ := x; simp only [wsLookup, kvGet, ih]
-
-theorem wsLookup_map {A B : Type} (f : A → B) (ws : List (Key × Option A)) (k : Key) :
-    wsLookup (ws.map (fun e => (e.1, e.2.map f))) k = (wsLookup ws k).map (Option.map f) := by
-  induction ws with
-  | nil => rfl
-  | cons x xs ih =>
-    obtain ⟨k', w⟩ := x
-    simp only [List.map_cons, wsLookup, ih]
-    split <;> rfl
-
 /-- **T11.seek**: let the seek's overlay changes be `value_iter` of a validated chain `l` of any heap built by `new` /
 `finish` (values hashed by `hash`).  Then (1) the view of `World.OK` reads every key as its youngest change along the
 chain — an insertion gives the hashed value, a deletion (naked or not) gives absence — and as the b-tree's value when
@@ -78,8 +64,8 @@ def nLive : Live := { parent := some 0, anc := [], minSeqn := 0 }
 
 theorem nHeap_built : Built nHeap := Built.push (h := []) (l := {}) Built.nil (by simp [LiveOK]) (by rfl)
 
-def ovEnv : Env T Nat Nat := { C05.exEnv with ov := [(kDel, none)] }
-def ovW : World T Nat Nat := { C05.exW with env := ovEnv }
+def ovEnv : Env T Nat Nat := { C05.skEnv with ov := [(kDel, none)] }
+def ovW : World T Nat Nat := { C05.skW with env := ovEnv }
 
 theorem ovW_ok : ovW.OK where
   sound := TH_sound
@@ -87,18 +73,18 @@ theorem ovW_ok : ovW.OK where
   root := rfl
   prim := List.Pairwise.nil
   sec := List.Pairwise.nil
-  leaves := C05.exW_ok.leaves
-  firstSep := C05.exW_ok.firstSep
+  leaves := C05.skW_ok.leaves
+  firstSep := C05.skW_ok.firstSep
   ov := by unfold OvSorted; decide +kernel
   viewEq := by
-    show C05.exView = kvApply (vhMap id (kvApply (flat C05.exLeaves) (smerge [] []))) [(kDel, none)]
+    show C05.skView = kvApply (vhMap id (kvApply (flat C05.skLeaves) (smerge [] []))) [(kDel, none)]
     rw [smerge_nil_right]
     decide +kernel
-  viewLen := C05.exW_ok.viewLen
-  baseLen := C05.exW_ok.baseLen
+  viewLen := C05.skW_ok.viewLen
+  baseLen := C05.skW_ok.baseLen
   ovLen := by decide +kernel
   rep := by
-    obtain ⟨h1, h2⟩ := C05.exW_rep
+    obtain ⟨h1, h2⟩ := C05.skW_rep
     exact ⟨h1, fun P hP h => h2 P hP h⟩
   recon := reconSpec_ok ovW rfl
 
@@ -108,8 +94,8 @@ example : ovW.OK ∧ Built nHeap ∧ LiveOK nHeap nLive ∧ nLive.valueIter nHea
   ⟨ovW_ok, nHeap_built, ⟨ovN, rfl, by decide, rfl, rfl⟩, by decide +kernel, rfl⟩
 
 /-- … and the mirror completes the seek of a key of that range: the leaf fetch skips nothing it should not (the
-deletion is naked), the terminal is the b-tree's leaf `kB` -/
-example : C05.resOf (Seek.run ovEnv {} [.push C05.kB, .step 0, .supplyPage 0, .step 0, .supplyLeaf 0]) 0 =
-    some (some (C05.kB, 2), [T.leaf C05.kA 1], 1) := by decide +kernel
+deletion is naked), the terminal is the b-tree's leaf `skB` -/
+example : C05.skRes (Seek.run ovEnv {} [.push C05.skB, .step 0, .supplyPage 0, .step 0, .supplyLeaf 0]) 0 =
+    some (some (C05.skB, 2), [T.leaf C05.skA 1], 1) := by decide +kernel
 
 end Nomt.C11
